@@ -104,6 +104,8 @@ def gen_ops(rng, n, kind):
             ops.append(['vw', mode, rng.randrange(1 << 20, 1 << 30)])
         elif r < 0.905 and kind == 'file':
             ops.append(['delobj', rng.randrange(1 << 30)])      # storage-level deleteObject
+            if rng.random() < 0.6:
+                ops.append(['recreate', rng.randrange(1 << 30)])    # store() again on top of the deletion record
         elif r < 0.92 and kind == 'file':
             ops.append(['restore', rng.randrange(1 << 30)])     # storage-level restore() of an unreachable object
         elif r < 0.93:
@@ -126,6 +128,7 @@ def gen_case(rng, thorough):
         # time are copied by the packer), or while historical connections are open and live ones commit
         case['pack_when'] = rng.choice(['now', 'end', 'end', 'later'])
         case['pack_days'] = rng.choice([0, 0, 1, 3])  # db.pack(t + days * 86400, days=days): same pack time
+        case['tz'] = rng.choice([None, None, 'JST-9', 'EST5EDT', 'NPT-5:45'])     # process time zone while packing
         # make sure the pack frees something and an object has >= 2 revisions after the pack time
         k = case['pack']
         case['ops'][k:k] = [['set', 1, rng.randrange(1 << 30)]] if k >= 2 else []
@@ -385,6 +388,9 @@ class World:
             self.st = MappingStorage()
         self.no_undo = set()     # indices in rec.txns that are never undone (deleteObject and its `del`)
         self.is_blob = {}        # oid -> True for Blob objects
+        self.deleted = {}        # oid -> tid of its deleteObject record (while that is its newest record)
+        self.root_frozen = 0     # root changes before this index are never undone (an unreachable object
+        #                          rewritten behind the live connections' backs must stay unreachable)
         self.rec = Record()
         self.last_touch = {}     # oid -> index in rec.txns of the last txn that wrote it
         self.packed_upto = 0     # bounds must be > this tid
@@ -472,7 +478,7 @@ class World:
                     tm.abort()
                     return False
                 tid, w = self.rec.txns[idx]
-                if tid <= self.packed_upto or idx in self.no_undo or \
+                if tid <= self.packed_upto or idx in self.no_undo or (0 in w and idx < self.root_frozen) or \
                         any(self.last_touch[oid] != idx for oid in w):
                     tm.abort()
                     self.obs.count('undo-skipped')
@@ -512,8 +518,30 @@ class World:
                 except Exception:
                     self.st.tpc_abort(t)
                     raise
-                self.note_commit({oid: None})
+                self.deleted[oid] = self.note_commit({oid: None})
                 self.no_undo.add(len(self.rec.txns) - 1)
+            elif kind == 'recreate':
+                # a plain store() under the oid of a deleted object, on top of its deletion record
+                tm.abort()
+                if not self.deleted or self.case['kind'] != 'file':
+                    return False
+                oid = sorted(self.deleted)[op[1] % len(self.deleted)]
+                from ZODB.Connection import TransactionMetaData
+                from ZODB.tests.MinPO import MinPO
+                from ZODB.tests.StorageTestBase import zodb_pickle
+                t = TransactionMetaData()
+                self.st.tpc_begin(t)
+                try:
+                    self.st.store(p64(oid), p64(self.deleted[oid]), zodb_pickle(MinPO(op[1])), '', t)
+                    self.st.tpc_vote(t)
+                    self.st.tpc_finish(t)
+                except Exception:
+                    self.st.tpc_abort(t)
+                    raise
+                del self.deleted[oid]
+                self.note_commit({oid: op[1]})
+                self.no_undo.add(len(self.rec.txns) - 1)
+                self.root_frozen = len(self.rec.txns)
             elif kind == 'restore':
                 # copy-style write of a new revision (IStorageRestoreable.restore, no invalidations) for an
                 # object that is no longer reachable
@@ -539,6 +567,7 @@ class World:
                     raise
                 self.note_commit({oid: op[1]})
                 self.no_undo.add(len(self.rec.txns) - 1)
+                self.root_frozen = len(self.rec.txns)
             elif kind == 'vw':
                 return self.vote_window(op, tm, c, root, mapping)
             return True
@@ -566,11 +595,25 @@ class World:
         exp = expected_reads(rec, ltid + 1, oids)
         ctx = 'at=%d (vote window, %s)' % (ltid, mode)
 
-        def look(where):
+        def look(where, newest=None):
             obs.nprobe += 1
             obs.count('vote-window-read:' + where)
             check_reads(obs, 'historical read ' + where, 'C15:read-differs',
                         real_reads(h, oids, minimize=True), exp, ctx)
+            # the newest transaction is still the last FINISHED one: a voted transaction is not a point
+            # of the history yet (and never becomes one if it is vetoed)
+            newest = ltid if newest is None else newest
+            got = u64(self.db.lastTransaction())
+            if got != newest:
+                obs.bad.append(('C15:unfinished-tid-is-newest', '%s: DB.lastTransaction() is %d %s, the newest '
+                                'finished transaction is %d' % (ctx, got, where, newest)))
+            try:
+                hx = self.db.open(transaction.TransactionManager(), at=p64(newest + 1))
+                hx.close()
+                obs.bad.append(('C15:future-accepted', '%s: open(at=%d) accepted %s although the newest '
+                                'transaction is %d' % (ctx, newest + 1, where, newest)))
+            except ValueError:
+                obs.count('vote-window-future-refused')
 
         def write(delta):
             w = {}
@@ -599,7 +642,8 @@ class World:
             writes = write(1)                   # same objects, same pickle layout, other values
             tm.commit()
             self.note_commit(writes)
-        look('after the outcome')
+        exp_after = exp
+        look('after the outcome', rec.ltid())
         h2 = self.db.open(transaction.TransactionManager(), at=p64(rec.ltid()))
         check_reads(obs, 'historical read of the commit that followed a watched vote', 'C15:read-differs',
                     real_reads(h2, oids, minimize=True), expected_reads(rec, rec.ltid() + 1, oids),
@@ -657,10 +701,24 @@ class World:
         from ZODB.TimeStamp import TimeStamp
         t = TimeStamp(p64(self.packed_upto)).timeTime() + 0.5
         days = self.case.get('pack_days', 0)
-        if days:
-            self.db.pack(t + days * 86400, days=days)
-        else:
-            self.db.pack(t)
+        import time as _time
+        tz, old = self.case.get('tz'), os.environ.get('TZ')
+        if tz:
+            os.environ['TZ'] = tz           # the pack time is a UTC instant whatever the process zone is
+            _time.tzset()
+            self.obs.count('pack:tz:' + tz)
+        try:
+            if days:
+                self.db.pack(t + days * 86400, days=days)
+            else:
+                self.db.pack(t)
+        finally:
+            if tz:
+                if old is None:
+                    os.environ.pop('TZ', None)
+                else:
+                    os.environ['TZ'] = old
+                _time.tzset()
         if self.case['kind'] != 'file':
             self.rec.hide_garbage(self.packed_upto)
         self.obs.count('pack:%s:%s:days=%d' % (self.case['kind'], self.case.get('pack_when', 'now'), days))
